@@ -36,6 +36,9 @@ def range (lo hi : Nat) : Gen Nat := do
   pure (lo + k)
 
 instance : Inhabited TimeEvent := ⟨.dawn⟩
+instance : Inhabited WideSep := ⟨.none⟩
+instance : Inhabited KindWord := ⟨.none⟩
+instance : Inhabited SepWord := ⟨.semiSpace⟩
 
 def genNum (n : Nat) : Gen Num := do
   if ← chance 1 6 then pure ⟨n, ← range 1 3⟩ else pure ⟨n, 0⟩
@@ -236,10 +239,6 @@ def genSel : Gen Sel := do
           if wd.isNone && ts.isEmpty then pick [WideSep.none, .colon]
           else pick [WideSep.space, .space, .colonSpace, .colon])
         pure (.sel (.sel ys ms ws sep) wd ts)
-
-instance : Inhabited WideSep := ⟨.none⟩
-instance : Inhabited KindWord := ⟨.none⟩
-instance : Inhabited SepWord := ⟨.semiSpace⟩
 
 def genModifier : Gen Modifier := do
   let c ← (do if ← chance 1 4 then pure (some (← genComment)) else pure none)
